@@ -54,8 +54,33 @@ def run(ctx):
     for s in ["find all @/abc", "find all 'a' --", "set f to transform return end", "find all @/(/", "find all @/[/", "find all @/a{/", "find all @/a{1,/", "find all @/\\/",
               "find all @/(?/", "find all @/(?</", "find all @/\\k</", "find all (", "find all {", "find all 'a' =", "find all in", "find all not", "find all between 1 and",
               "set", "set x", "set x to", "set x to matches", "set x to pattern", "set x to transform", "set x to transform begin", "replace all 'a' with", "find", "find skip", "find skip 1 take",
-              "", " ", "--", "--(", "'", "\"", "@", "@/", "\x00", "find all 'a'\x00 garbage", "find all \"\\", "find all '\\x", "find all '\\x4"]:
+              "", " ", "--", "--(", "'", "\"", "@", "@/", "\x00", "find all 'a'\x00 garbage", "find all \"\\", "find all '\\x", "find all '\\x4",
+              # numbers that do not fit an int, in every place a number is read
+              "find skip 99999999999999999999 'a'", "find take 99999999999999999999 'a'", "find top 99999999999999999999 'a'", "find last 99999999999999999999 'a'",
+              "find skip 1 take 99999999999999999999 'a'", "find all at least 99999999999999999999 'a'", "find all at most 99999999999999999999 'a'",
+              "find all between 99999999999999999999 and 3 'a'", "find all between 1 and 99999999999999999999 'a'", "find all exactly 99999999999999999999 'a'",
+              "find all @/a{99999999999999999999}/", "find all @/a{1,99999999999999999999}/", "find skip 1 take", "find skip 1 take x 'a'",
+              # names and classes cut short or followed by the wrong word
+              "find all exactly x 'a'", "find all exactly 2 'a' named", "find all exactly 2 'a' named 3", "find all at least 1 'a' named", "find all at least 1 'a' named 3", "find all exactly 2 'a' named n",
+              "find all line", "find all line x", "find all word", "find all word x", "find all file", "find all file x", "find all whole", "find all whole x", "find all not", "find all not x y",
+              "find all in caseless 'a', 'b'", "find all caseless", "find all caseless x", "find all = x", "find all 'a' = 3", "set x to matches", "set x to matches x", "set x to matches find all 'a'",
+              "set x to matches set y to pattern 'a'", "set f to transform return (1 end", "set f to transform return (1 + 2 end find all 'a'",
+              # regex escapes and group openers of every kind
+              "find all @/\\w\\W\\b\\B/", "find all @/\\k/", "find all @/\\kx/", "find all @/\\k<x/", "find all @/(?=a)/", "find all @/(?!a)/", "find all @/(?<=a)/", "find all @/(?<!a)/", "find all @/(?<n/",
+              "find all @/(?:a/", "find all @/a{3/", "find all @/a{3,/", "find all @/a{3,4/", "find all @/a{3,4x/", "find all @/a{x}/", "find all @/[a-/", "find all @/[a/", "find all @/[\\/", "find all @/\\/"]:
         add(s, "named in the property")
+    # very short sources, byte by byte: every single byte, every pair of the bytes that begin or continue a multi-byte character, a byte-order mark
+    # in front of a program and every prefix of that (sources also go through CompileFile, which reads them from disk)
+    for b in range(256):
+        add(chr(b), "one byte")
+    lead = [0x00, 0x0a, 0x20, 0x27, 0x2d, 0x40, 0x7f, 0x80, 0xbb, 0xbf, 0xc0, 0xc3, 0xe2, 0xef, 0xf0, 0xf4, 0xfe, 0xff]
+    for a in lead:
+        for b in lead:
+            add(chr(a) + chr(b), "two bytes")
+    bom = "\xef\xbb\xbffind all 'a'"
+    for k in range(len(bom) + 1):
+        add(bom[:k], "byte-order mark prefix")
+    add("\xff\xfef\x00i\x00n\x00d\x00", "byte-order mark prefix")
     # process expressions cut short by a statement keyword: the expression parser runs on a token slice that ends where the statement ends
     # (no EOF token behind it), so every look-ahead must stop there
     etoks = ["-", "+", "*", "/", "%", "==", "!=", "<", ">", "<=", ">=", "and", "or", "not", "head", "tail", "(", ")", "1", "x", "'s'", "true", "match"]
